@@ -59,6 +59,25 @@ def run(tier):
     # a JSON number of any length is a core-schema number: the float resolver may say "not a number" only where the lexical test failed
     from . import C08 as _C08
     _C08.rejects_only_by_guard(rep, F, F.fn("saphyr::loader::parse_f64"), "json-number-rejected-only-by-lexical-test")
+    # ... and the lexical test itself accepts every JSON number (RFC 8259 section 6: -?(0|[1-9][0-9]*)(\.[0-9]+)?([eE][-+]?[0-9]+)?): the guard
+    # is folded over every string of up to 5 characters over {0,1,.,e,E,+,-} that is a JSON number and over some long spellings
+    import itertools, re as _re
+    fk = "saphyr::loader::is_core_schema_number"
+    if fk in F.fns:
+        rx = _re.compile(r"-?(0|[1-9][0-9]*)(\.[0-9]+)?([eE][-+]?[0-9]+)?\Z")
+        cases = [s_ for s_ in ("".join(t) for n_ in range(1, 6) for t in itertools.product("01.eE+-", repeat=n_)) if rx.match(s_)]
+        cases += ["1e+21", "1E+21", "-1.5e+300", "6.02e+23", "1e-7", "1e0001", "2E-00010", "-0.0", "1" * 30, "0." + "1" * 40, "-" + "1" * 25 + ".5", "1" * 25 + "e+10", "10.25E-3"]
+        refused, ncase = [], 0
+        try:
+            for sx in cases:
+                ncase += 1
+                if not _fold.Folder(F).call(fk, [("ref", ("str", sx))]):
+                    refused.append(sx if len(sx) < 14 else sx[:6] + "...x%d" % len(sx))
+            rep.check(not refused, "json-number-language", "is_core_schema_number", "the lexical test of floats refuses JSON numbers: %s (they load as strings)"
+                      % ", ".join(repr(x) for x in refused[:6]), site=F.fns[fk].span, detail={"cases": ncase, "refused": len(refused)})
+            rep.floor("JSON number spellings folded through the float guard", ncase, 100)
+        except (_fold.Unsupported, _fold.Diverged) as ex:
+            rep.extra["json_number_language_not_decided"] = str(ex)
     # (c) adjacent value
     for fk, cond in ((S + "fetch_flow_scalar", None), (S + "fetch_flow_collection_end", "flow_level")):
         f = F.fn(fk)
